@@ -143,5 +143,47 @@ pub fn run() -> i32 {
             }
         }
     }
+    // ---- tight spans of whole elements: the span starts at the first token of the declaration proper (after doc comment and attributes),
+    //      and ends on a token of the element -- in every combination of the optional keywords / tags / return types next to the captures
+    {
+        let cases: Vec<(&str, Vec<(&str, &str, &str)>)> = vec![
+            // (program, [(kind, scoped identifier, the text its span must cover)])
+            ("module M\n/// doc\n[foo::bar] unchecked enum U { A }\n[foo::bar] compact enum C { A(x: bool) }\n/// d\n[a::b]\n  unchecked enum U2 : uint8 { A }\n[a::b] enum P { A }\n",
+                vec![("enum", "M::U", "unchecked enum U"), ("enum", "M::C", "compact enum C"), ("enum", "M::U2", "unchecked enum U2"), ("enum", "M::P", "enum P")]),
+            ("module M\ninterface I {\n    /// d\n    [a::b] plain(x: bool)   // trailing comment\n\n    idempotent idem()\n    [a::b] idempotent ret(x: bool) -> string // c\n    tup() -> (a: bool, b: bool)\n    last()\n}\n",
+                vec![("operation", "M::I::plain", "plain(x: bool)"), ("operation", "M::I::idem", "idempotent idem()"), ("operation", "M::I::ret", "idempotent ret(x: bool) -> string"), ("operation", "M::I::tup", "tup() -> (a: bool, b: bool)"), ("operation", "M::I::last", "last()")]),
+            ("module M\ninterface I {\n    one() ->   string\n    two() -> tag(1) string?\n    three() ->\tstream uint8\n    four() -> tag(2) stream string?\n}\n",
+                vec![("return", "M::I::one", "string"), ("return", "M::I::two", "tag(1) string?"), ("return", "M::I::three", "stream uint8"), ("return", "M::I::four", "tag(2) stream string?")]),
+            ("module M\n/// d\n[a::b] compact struct CS { x: bool }\n[a::b] struct PS { /// f\n [a::b] tag(1) t: bool?, [a::b] u: bool }\n",
+                vec![("struct", "M::CS", "compact struct CS"), ("struct", "M::PS", "struct PS"), ("field", "M::PS::t", "tag(1) t: bool?"), ("field", "M::PS::u", "u: bool")]),
+        ];
+        for (text, wants) in cases {
+            rep.case(true, || format!("tight spans: {text:?}"));
+            let t2 = text.to_owned();
+            let w2: Vec<(String, String)> = wants.iter().map(|(k, id, _)| (k.to_string(), id.to_string())).collect();
+            let out = std::panic::catch_unwind(move || {
+                let state = slicec::compile_from_strings(&[&t2], Some(&SliceOptions::default()));
+                let errors = state.diagnostics.has_errors();
+                let spans: Vec<Option<Span>> = w2.iter().map(|(k, id)| match k.as_str() {
+                    "enum" => state.ast.find_element::<Enum>(id).ok().map(|e| e.span().clone()),
+                    "operation" => state.ast.find_element::<Operation>(id).ok().map(|e| e.span().clone()),
+                    "return" => state.ast.find_element::<Operation>(id).ok().and_then(|o| o.return_members().first().map(|r| r.span().clone())),
+                    "struct" => state.ast.find_element::<Struct>(id).ok().map(|e| e.span().clone()),
+                    _ => state.ast.find_element::<Field>(id).ok().map(|e| e.span().clone()),
+                }).collect();
+                (errors, spans)
+            });
+            match out {
+                Err(_) => rep.counterexample(text, "spans", "PANIC"),
+                Ok((errors, spans)) => {
+                    if errors { rep.counterexample(text, "a well-formed program", "error diagnostics"); continue; }
+                    for ((kind, id, want), sp) in wants.iter().zip(spans) {
+                        let got = sp.as_ref().and_then(|s| text_at(text, s));
+                        if got.as_deref() != Some(*want) { rep.counterexample(text, &format!("the span of {kind} {id} covers exactly {want:?}"), &format!("{got:?} ({:?})", sp.map(|s| (s.start.row, s.start.col, s.end.row, s.end.col)))); }
+                    }
+                }
+            }
+        }
+    }
     rep.finish()
 }
